@@ -215,6 +215,11 @@ def s_scene(mode, flex_weight=(1, 1), flex_scenes=(0, 1)):
                 e['default_curve'] = [0, 0]
         return d
     extra = {}
+    # about 1 scene in 12: one string field replaced by a string of a boundary length, built by repeating a short unit
+    unit = st.text(POOL_ALPHA if mode in ('q', 'img') else TEXT_ALPHA, min_size=1, max_size=3)
+    long = st.fixed_dictionaries({'unit': unit, 'len': st.sampled_from(LONG_LENGTHS), 'slot': st.integers(0, 40),
+                                  'all': st.just(mode == 'text')})
+    extra['long'] = st.tuples(st.integers(0, 11), long).map(lambda t: t[1] if t[0] == 11 else None)
     if mode in ('bin', 'img'):
         # about 1 scene in 40 gets one counted list blown up to a width boundary of its count field (see COUNT_FIELDS)
         fields = sorted(COUNT_FIELDS) if mode == 'bin' else sorted(f for f, w in COUNT_FIELDS.items() if w == 'B')
@@ -259,7 +264,65 @@ def boost_count(boost):
             'over': WIDTH_UMAX[width] + 1}[boost['count']]
 
 
+# String-length boundaries: block sizes a reader might use (128, 256, 1024, 4096) +-1, and one beyond 16 bits.
+LONG_LENGTHS = [127, 128, 129, 255, 256, 257, 1023, 1024, 1025, 4095, 4096, 4097, 65537, 70001]
+
+
+def strlen_class(n):
+    for lo, hi in ((127, 129), (255, 257), (1023, 1025), (4095, 4097)):
+        if lo <= n <= hi:
+            return f'strlen:{lo}-{hi}'
+    return 'strlen:>65536' if n > 65536 else 'strlen:other'
+
+
+def label_long(d, ctx):
+    if d.get('long'):
+        ctx.label(strlen_class(d['long']['len']), 'strlen:boundary')
+
+
+def string_slots(d, every):
+    """(container, key) of each string field of a scene descriptor; pooled (binary-stored) ones, or every one."""
+    slots = []
+    for a in d['actors']:
+        slots.append((a, 'name'))
+        if every:
+            slots.append((a, 'model'))
+        for c in a['channels']:
+            slots.append((c, 'name'))
+    for e in all_events(d):
+        slots.append((e, 'name'))
+        slots.extend((e['params'], i) for i in range(3))
+        if e['tag']:
+            slots.extend((e['tag'], i) for i in range(2))
+        for key in ('rel_tags', 'timing_tags', 'abs_play', 'abs_shift'):
+            slots.extend((t, 0) for t in e[key])
+        slots.extend((t, 'name') for t in e['flex'])
+        if e['kind'] == 'speak':
+            slots.append((e, 'cc_token'))
+    if every:
+        slots.append((d, 'map_name'))
+        slots.extend((kv, 1) for kv in d['scale'])
+    return slots
+
+
 def expand(d):
+    """Scene descriptor with its 'long' (one string of a boundary length) and 'boost' (see expand_boost) applied."""
+    long = d.get('long')
+    d = expand_boost({k: v for k, v in d.items() if k != 'long'})
+    if not long:
+        return d
+    d = json.loads(json.dumps(d))
+    slots = string_slots(d, long['all'])
+    if not slots:
+        d['events'].append(blank_event('speak'))
+        slots = string_slots(d, long['all'])
+    box, key = slots[long['slot'] % len(slots)]
+    unit = long['unit']
+    box[key] = (unit * (long['len'] // len(unit) + 1))[:long['len']]
+    return d
+
+
+def expand_boost(d):
     """Scene descriptor with its 'boost' applied: one counted list repeated (cheap items) to exactly the boundary count."""
     boost = d.get('boost')
     d = {k: v for k, v in d.items() if k != 'boost'}
@@ -826,6 +889,8 @@ def text_cycle(ctx, scene, want, label):
 def exec_text(desc, ctx):
     if 'file' in desc:
         return exec_text_file(desc, ctx)
+    label_long(desc, ctx)
+    desc = expand(desc)
     classify(desc, ctx)
     scene = build_or_fail(desc, ctx)
     if scene is None:
@@ -921,6 +986,7 @@ def exec_binary(desc, ctx):
     if 'file' in desc:
         return exec_binary_file(desc, ctx)
     boost = desc.get('boost')
+    label_long(desc, ctx)
     desc = expand(desc)
     classify(desc, ctx)
     strs = pooled_strings(desc)
@@ -1046,6 +1112,8 @@ def fixed_binary(tier):
 # ------------------------------------------------------------------------------------------------ text -> binary -> text
 
 def exec_cross(desc, ctx):
+    label_long(desc, ctx)
+    desc = expand(desc)
     classify(desc, ctx)
     scene = build_or_fail(desc, ctx)
     if scene is None:
@@ -1239,6 +1307,8 @@ def exec_image(desc, ctx):
     version = desc['version']
     if any(e['scene'].get('boost') for e in desc['entries']):
         ctx.label('image:count_boundary_scene')
+    for e in desc['entries']:
+        label_long(e['scene'], ctx)
     ents = [dict(e, scene=expand(e['scene'])) for e in desc['entries']]
     ctx.label(f'version:{version}', 'entries:' + ('0' if not ents else '1' if len(ents) == 1 else '2+'),
               'arg:dict' if desc['as_dict'] else 'arg:iter')
@@ -1400,6 +1470,18 @@ def fixed_image(tier):
         one = blank_scene()
         one['events'].append(blank_event('speak'))
         yield {'version': version, 'as_dict': version == 3, 'mode': 'mixed', 'entries': [{'filename': 'One.vcd', 'scene': one}]}
+    # string-length boundaries in the shared pool: a sound name (event parameter -> scene, summary and pool) and an
+    # event name of each boundary length
+    modes = ['reexport', 'mixed', 'two_pools', 'history']
+    for i, length in enumerate(LONG_LENGTHS):
+        snd = blank_scene()
+        snd['events'].append(blank_event('speak'))
+        snd['long'] = {'unit': 'Vo/', 'len': length, 'slot': 1, 'all': False}
+        nam = blank_scene()
+        nam['events'].append(blank_event('gesture'))
+        nam['long'] = {'unit': '\xe9b', 'len': LONG_LENGTHS[(i + 3) % len(LONG_LENGTHS)], 'slot': 0, 'all': False}
+        yield {'version': 2 + i % 2, 'as_dict': i % 3 == 0, 'mode': modes[i % 4], 'pre_ops': [], 'post_ops': [['rename', 0, 'moved.vcd']],
+               'entries': [{'filename': 'snd.vcd', 'scene': snd}, {'filename': 'Name.vcd', 'scene': nam}]}
 
 
 def exec_image_any(desc, ctx):
@@ -1454,13 +1536,14 @@ SUBS = [
         must_hit=COMMON_HIT + ('edge', 'scalesettings', 'file:sample.vcd')),
     Sub('choreo_binary', exec_binary, strategy=strategy_binary, fixed=fixed_binary, quick=800, thorough=8000, floor=100,
         quick_shards=16,
-        must_hit=COMMON_HIT + ('flex', 'flex:dir', 'binary:case_variant_strings', 'binary:count_over_signed_max',
+        must_hit=COMMON_HIT + ('strlen:boundary', 'flex', 'flex:dir', 'binary:case_variant_strings', 'binary:count_over_signed_max',
                              'binary:count_over_limit_rejected', 'file:sample.vcd', 'file:test_save_binary.bvcd')),
     Sub('choreo_cross', exec_cross, strategy=strategy_cross, quick=600, thorough=6000, floor=100, quick_shards=16,
         must_hit=COMMON_HIT),
     Sub('choreo_image', exec_image_any, strategy=strategy_image, fixed=fixed_image, quick=112, thorough=2000, floor=40,
         quick_shards=16,
-        must_hit=('version:2', 'version:3', 'mode:reexport', 'mode:mixed', 'mode:two_pools', 'mode:history', 'history:rename',
+        must_hit=('strlen:127-129', 'strlen:255-257', 'strlen:1023-1025', 'strlen:4095-4097', 'strlen:>65536',
+                  'version:2', 'version:3', 'mode:reexport', 'mode:mixed', 'mode:two_pools', 'mode:history', 'history:rename',
                   'history:replace', 'history:stale_dict_key', 'entries:2+', 'image:case_variant_strings_across_scenes', 'arg:dict', 'arg:iter', 'input_unsorted', 'ev:speak', 'lzma')),
 ]
 
